@@ -55,3 +55,32 @@ Proof. apply le_bytes_length. Qed.
 
 Lemma spec_encode_bytes L vals : Forall (fun b => b < 256) (spec_encode L vals).
 Proof. apply le_bytes_ok. Qed.
+
+(* kinds without whole-octet legacy values are read through their layout alone *)
+Lemma spec_decode_k_plain k bs : legacy_octets k = [] -> spec_decode_k k bs = spec_decode (layout_of k) bs.
+Proof. intros H. unfold spec_decode_k, is_legacy. rewrite H. destruct bs as [|b [|]]; reflexivity. Qed.
+
+Lemma spec_encode_k_plain k vals : legacy_octets k = [] -> spec_encode_k k vals = spec_encode (layout_of k) vals.
+Proof. intros H. unfold spec_encode_k, is_legacy. rewrite H. destruct vals as [|b [|]]; reflexivity. Qed.
+
+Lemma spec_encode_k_length k vals : k <> KProprietary -> length (spec_encode_k k vals) = byte_size (layout_of k).
+Proof.
+  intros Hk. unfold spec_encode_k. destruct vals as [|v [|]]; try apply spec_encode_length.
+  destruct (is_legacy k v) eqn:E; [|apply spec_encode_length].
+  destruct k; try discriminate E; try congruence. reflexivity.
+Qed.
+
+Lemma spec_encode_k_bytes k vals : Forall (fun b => b < 256) (spec_encode_k k vals).
+Proof.
+  unfold spec_encode_k. destruct vals as [|v [|]]; try apply spec_encode_bytes.
+  destruct (is_legacy k v) eqn:E; [|apply spec_encode_bytes].
+  destruct k; try discriminate E. unfold is_legacy in E. cbn [legacy_octets existsb] in E.
+  rewrite orb_false_r in E. apply N.eqb_eq in E. subst. constructor; [reflexivity|constructor].
+Qed.
+
+Lemma layout_only_kinds k x : k <> KDutyCycleReq ->
+  spec_encode_k k x = spec_encode (layout_of k) x /\ spec_decode_k k x = spec_decode (layout_of k) x.
+Proof.
+  intros Hk. assert (H : legacy_octets k = []) by (destruct k; congruence || reflexivity).
+  split; [now apply spec_encode_k_plain | now apply spec_decode_k_plain].
+Qed.
